@@ -7,6 +7,7 @@ import (
 	"fmt"
 	"os"
 	"path/filepath"
+	"runtime"
 	"sort"
 	"strings"
 	"syscall"
@@ -35,6 +36,8 @@ type c19Case struct {
 	Entries       []hookEntry `json:"entries"`
 	WorldWritable bool        `json:"world_writable"`
 	AgentLevel    bool        `json:"agent_level"`
+	// MidRound: 40 extra hooks; the first event is followed by a second change made while the first round is still being started
+	MidRound bool `json:"mid_round"`
 }
 
 const hooksLimit = 5 * time.Second
@@ -49,6 +52,12 @@ func genC19(t *rapid.T) c19Case {
 			name = "." + name
 		}
 		c.Entries = append(c.Entries, hookEntry{Name: name, Kind: k})
+	}
+	if !c.AgentLevel && !c.WorldWritable && rapid.IntRange(0, 3).Draw(t, "midround") == 0 {
+		c.MidRound = true
+		for i := 0; i < 40; i++ {
+			c.Entries = append(c.Entries, hookEntry{Name: fmt.Sprintf("m%02d-exec", i), Kind: "exec"})
+		}
 	}
 	deltas := []time.Duration{0, time.Nanosecond, time.Millisecond, time.Second, 2500 * time.Millisecond, hooksLimit - time.Millisecond, hooksLimit - time.Nanosecond, hooksLimit,
 		hooksLimit + time.Nanosecond, hooksLimit + time.Millisecond, 7 * time.Second, 2*hooksLimit - time.Nanosecond, 2 * hooksLimit, 2*hooksLimit + time.Nanosecond, 12 * time.Second, 61 * time.Second}
@@ -193,7 +202,12 @@ func runC19(c c19Case) string {
 		if len(data) == 0 {
 			lines = nil
 		}
-		newl := lines[seenLines:]
+		var newl []string
+		for _, l := range lines[seenLines:] {
+			if !strings.HasPrefix(l, "CHANGE|") {
+				newl = append(newl, l)
+			}
+		}
 		seenLines = len(lines)
 		if len(newl) == 0 {
 			return ""
@@ -240,6 +254,17 @@ func runC19(c c19Case) string {
 		}
 		return ""
 	}
+	// change markers are appended to the hooks' own log *before* the change is made: a hook line that precedes
+	// marker k in the file belongs to a hook started before change k.
+	nmark := 0
+	markCounts := map[int]bool{} // marker index -> counts as a change that must be covered
+	mark := func() int {
+		f, _ := os.OpenFile(logf, os.O_APPEND|os.O_CREATE|os.O_WRONLY, 0o600)
+		fmt.Fprintf(f, "CHANGE|%d|-|-\n", nmark)
+		f.Close()
+		nmark++
+		return nmark - 1
+	}
 	ei := 0
 	for _, at := range times {
 		if d := at - time.Since(start); d > 0 {
@@ -255,13 +280,35 @@ func runC19(c c19Case) string {
 			ei++
 			switch ev.Kind {
 			case "notify":
+				markCounts[mark()] = true
 				h.Notify <- true
 				notifs = append(notifs, now)
+				if c.MidRound && ei == 1 {
+					// wait (real time) until the first hook of this round has logged, then make a second change mid-round
+					deadline := time.Now()
+					_ = deadline
+					seen := false
+					for spin := 0; spin < 200000 && !seen; spin++ {
+						if data, _ := os.ReadFile(logf); strings.Count(string(data), "|update|") > 0 {
+							seen = true
+						}
+						runtime.Gosched()
+					}
+					if seen {
+						markCounts[mark()] = true
+						h.Notify <- true
+						notifs = append(notifs, now)
+						vlib.Class("second-change-made-while-a-round-was-starting")
+					} else {
+						vlib.Class("midround:first-hook-never-logged")
+					}
+				}
 			case "newstore":
 				h.NewStore <- ev.Dir
 				curStore, storeChangedAt = ev.Dir, now
 			case "op":
 				okOp := false
+				mk := mark()
 				switch ev.Op.Kind {
 				case "add":
 					okOp = e.iface.Add(ev.Op.User, ev.Op.PW, ev.Op.Admin) == nil
@@ -277,6 +324,7 @@ func runC19(c c19Case) string {
 					e.iface.List()
 				}
 				if okOp {
+					markCounts[mk] = true
 					notifs = append(notifs, now)
 					vlib.Class("agent-op:succeeded:" + ev.Op.Kind)
 				} else {
@@ -287,6 +335,29 @@ func runC19(c c19Case) string {
 		}
 		if msg := readLog(now); msg != "" {
 			return msg
+		}
+	}
+	// log-order cover: after the marker of every change that counts, every eligible hook has been started again
+	if len(eligible) > 0 {
+		data, _ := os.ReadFile(logf)
+		lines := strings.Split(strings.TrimSpace(string(data)), "\n")
+		for k := range markCounts {
+			after := map[string]bool{}
+			found := false
+			for _, l := range lines {
+				if l == fmt.Sprintf("CHANGE|%d|-|-", k) {
+					found = true
+					continue
+				}
+				if found && !strings.HasPrefix(l, "CHANGE|") {
+					after[strings.SplitN(l, "|", 2)[0]] = true
+				}
+			}
+			for _, n := range eligible {
+				if !after[n] {
+					return fmt.Sprintf("VIOLATION C19: change #%d is not followed by a start of eligible hook %q (it was only started before that change); %d changes, rounds at %v", k, n, len(markCounts), roundTimes(rounds))
+				}
+			}
 		}
 	}
 	// invariants over the round log
